@@ -104,6 +104,11 @@ public final class Rat {
         }
         return out(new Q(n, d));
     }
+    public static Value RSeqMaxAbs(Value s) {
+        Q m = ZERO;
+        for (Value v : elems(s)) { Q x = parse(v); Q a = new Q(x.n.abs(), x.d, true); if (cmp(a, m) > 0) m = a; }
+        return out(m);
+    }
     public static Value RDot(Value s, Value t) {
         Value[] e = elems(s), f = elems(t);
         if (e.length != f.length) throw new IllegalArgumentException("Rat: RDot length mismatch");
